@@ -599,7 +599,7 @@ func (m *Machine) draw0(t *rapid.T, g *GenOpts) Action {
 		a.Op = op()
 		a.Key = rapid.IntRange(0, len(m.Keys)-1).Draw(t, "key")
 		if hostile {
-			a.Pad = 1 + uniform(t, 6, "bad-key") // a malformed or unsupported consensus key
+			a.Pad = 1 + uniform(t, 5, "bad-key") // a malformed or unsupported consensus key
 		}
 	case "price":
 		m.drawPrice(t, g, &a)
